@@ -42,6 +42,8 @@ def field_attr_variants(rnd):
         ("rename+skip_serializing_if", None, "Option<i32>"),
         ("doc-mentions-skip", ['#[doc = "skip this, rename = \\"nope\\""]'], "i32"),
         ("skip+default", ["#[serde(skip, default)]"], "i32"),
+        # the usual way to exempt one item from the container's rename_all: a rename that spells its own name
+        ("rename-to-own-name", ['#[serde(rename = "@OWN@")]'], "i32"),
         # other spellings of the same attribute grammar
         ("rename-raw-string", ['#[serde(rename = r#"raw"quoted\\name"#)]'], "i32"),
         ("rename-no-spaces-trailing-comma", ['#[serde(rename="tight",)]'], "i32"),
@@ -80,7 +82,7 @@ def variant_attr_variants(rnd):
     rv = lambda: pool.pop()
     return [("none", []), ("rename", ["#[serde(rename = %s)]" % rs(rv())]), ("alias", ['#[serde(alias = "rename")]']),
             ("alias-named-skip", ['#[serde(alias = "skip_it")]']), ("rename,separate-alias", ["#[serde(rename = %s)]" % rs(rv()), '#[serde(alias = "zzz")]']),
-            ("doc-mentions-rename", ['#[doc = "rename = \\"nope\\" skip"]'])]
+            ("doc-mentions-rename", ['#[doc = "rename = \\"nope\\" skip"]']), ("rename-to-own-name", ['#[serde(rename = "@OWN@")]'])]
 
 
 def build_types(rnd, nstructs, nenums):
@@ -102,7 +104,7 @@ def build_types(rnd, nstructs, nenums):
                     k += 1
                     ident = FIELD_IDENTS[(k + s * 3 + n) % len(FIELD_IDENTS)]
                 used.add(ident)
-                items.append((ident, label, attrs, ty))
+                items.append((ident, label, [a_.replace("@OWN@", ident.replace("r#", "")) for a_ in attrs], ty))
                 k += 1
             # plus the remaining identifier shapes unattributed
             for ident in FIELD_IDENTS:
@@ -120,7 +122,7 @@ def build_types(rnd, nstructs, nenums):
             rnd.shuffle(idents)
             for j, ident in enumerate(idents):
                 label, attrs = vav[(j + s) % len(vav)] if j < len(vav) else ("none", [])
-                items.append((ident, label, attrs, None))
+                items.append((ident, label, [a_.replace("@OWN@", ident.replace("r#", "")) for a_ in attrs], None))
             types.append({"kind": "enum", "name": "E%d" % n, "rename_all": ra, "items": items})
             n += 1
     return types
